@@ -12,6 +12,20 @@ use std::time::{Duration, Instant};
 
 pub const ENGINE_ID: u64 = 0xB;
 
+/// which build of the harness wrote a replay file: "plain", or the function-entry-instrumented
+/// builds "mc-fast" / "mc-atomic" (target/mc, target/mca); `./check --replay` uses the same one
+pub fn build_tag() -> &'static str {
+    if !crate::mc::instrumented() {
+        return "plain";
+    }
+    let exe = std::env::current_exe().map(|p| p.to_string_lossy().to_string()).unwrap_or_default();
+    if exe.contains("/mca/") {
+        "mc-atomic"
+    } else {
+        "mc-fast"
+    }
+}
+
 fn gen_cfg(m: &HashMap<String, String>, focus: &str) -> GenCfg {
     let with_256 = !m.contains_key("no-256");
     GenCfg {
@@ -100,7 +114,7 @@ fn run_once(w: &mut World, plan: &SchedPlan, want_log: bool) -> SRun {
                 let rj = J::obj()
                     .set("format", J::Int(1))
                     .set("property", J::s(property))
-                    .set("engine", J::s("sched"))
+                    .set("engine", J::s("sched")).set("build", J::s(build_tag()))
                     .set("seed", J::Int(*seed as i64))
                     .set("run_index", J::Int(*idx))
                     .set("gen_cfg", cfgj.clone())
@@ -291,7 +305,7 @@ fn replay_json(property: &str, seed: u64, idx: i64, cfg: &GenCfg, plan: &SchedPl
     J::obj()
         .set("format", J::Int(1))
         .set("property", J::s(property))
-        .set("engine", J::s("sched"))
+        .set("engine", J::s("sched")).set("build", J::s(build_tag()))
         .set("seed", J::Int(seed as i64))
         .set("run_index", J::Int(idx))
         .set("gen_cfg", cfg_json(cfg))
@@ -411,7 +425,7 @@ pub fn cmd_sched(m: &HashMap<String, String>) -> i32 {
         let rj = J::obj()
             .set("format", J::Int(1))
             .set("property", J::s(&property))
-            .set("engine", J::s("sched"))
+            .set("engine", J::s("sched")).set("build", J::s(build_tag()))
             .set("seed", J::Int(seed as i64))
             .set("run_index", J::Int(idx as i64))
             .set("gen_cfg", cfg_json(&cfg))
